@@ -163,7 +163,7 @@ def parse_terse(out):
             if mm:
                 desc = mm.group(1)
                 loc = lines[i + 1] if i + 1 < len(lines) else ""
-                ml = re.match(r'^\s*File: "([^"]*)", line (\d+), in (\S+)', loc)
+                ml = re.match(r'^\s*File: "([^"]*)", line (\d+), in (.+?)\s*$', loc)
                 if ml:
                     r["failed_checks"].append((desc, ml.group(1), int(ml.group(2)), ml.group(3)))
                     i += 1
